@@ -3,8 +3,11 @@
 package driver
 
 import (
+	"bufio"
 	"net/url"
 	"os"
+
+	"github.com/google/pprof/internal/plugin"
 )
 
 // VerifNewTempFile exposes newTempFile to the verification harness.
@@ -24,3 +27,6 @@ func VerifCurrentConfig() string {
 	u, _ := cfg.makeURL(url.URL{})
 	return u.RawQuery
 }
+
+// VerifStdUI returns the terminal UI pprof falls back to when no UI plug-in is given.
+func VerifStdUI() plugin.UI { return &stdUI{r: bufio.NewReader(os.Stdin)} }
